@@ -297,6 +297,20 @@ def _run_sim(c, s):
             raise Violation("completed-order-live-again", (kind, fate), "order %d completed (%s) before the response but is %s" % (i, fate, st), c)
         if fate == "lapsed" and _complete_before(c, i) and not o.complete:
             raise Violation("completed-order-live-again", (kind, fate), "order %d lapsed before the response but is %s" % (i, st), c)
+    # each instruction report is applied to the order it belongs to: every order of an update / cancel package gets
+    # exactly one report, and a successful update leaves the order with the persistence requested FOR THAT ORDER
+    if kind in ("update", "cancel"):
+        for i, o in enumerate(orders):
+            reps = o.responses.update_responses if kind == "update" else o.responses.cancel_responses
+            if len(reps) != 1:
+                raise Violation("instruction-report-misapplied", (kind, "count", c["fates"][i], "sim"),
+                                "order %d (fate %s) has %d %s reports, one instruction was sent for it" % (i, c["fates"][i], len(reps), kind), c)
+            if kind == "update" and reps[0].status == "SUCCESS":
+                want = "PERSIST" if c["pers"][i] != "PERSIST" else "LAPSE"
+                if o.order_type.persistence_type != want:
+                    raise Violation("instruction-report-misapplied", (kind, "content", c["fates"][i], "sim"),
+                                    "order %d asked for persistence %s, after the successful update it has %s (package persistence requests %s)" % (
+                                        i, want, o.order_type.persistence_type, ["PERSIST" if p != "PERSIST" else "LAPSE" for p in c["pers"]]), c)
     # transaction counts: executed place/replace instructions + failed replies
     exp = 0
     if kind in ("place", "replace"):
